@@ -20,6 +20,22 @@ def key_of(line):
     return t[0]
 
 
+def classify_known(entry, line, verdict):
+    """A known finding of the history stream matches only when the *first failing step* is the operation it is about
+    (entry["step_op"]), so that an unrelated failure in a history that merely contains such an operation is still reported."""
+    import re
+    if not entry.get("match") or re.search(entry["match"], line) is None:
+        return False
+    if not entry.get("step_op"):
+        return True
+    m = re.search(r"\bstep=(\d+)\b", verdict)
+    if not m:
+        return False
+    toks = line.split(" = ")[0].split(" ")[3:]
+    k = int(m.group(1))
+    return k < len(toks) and toks[k].startswith(entry["step_op"] + ".")
+
+
 def refptr_cases(tier, seed):
     """RefCountPtr histories: every sequence up to length 3 (quick) / 4 (thorough) over 3 slots, plus seeded longer ones.
     The value given to `new` is the position in the history, so that objects are distinguishable."""
@@ -57,16 +73,20 @@ def refptr_cases(tier, seed):
 def run(prop, tier, seed, replay=None):
     V = report.Verdict(prop, tier, seed, "proof")
     V.assumptions = [
-        "Array0 is modelled over an abstract block store with fresh identifiers (a released block is a tombstone); that the real pool "
-        "recycles a block only after its release is the FreeList model's theorem plus the harness's free-list walker, not one combined proof",
+        "the hand transcription of givarray0.inl / givaromm.h,.C / givpointer.h into Model/Array0.lean, Model/FreeList.lean, Model/RefPtr.lean "
+        "is tied to the code by correspondence only",
+        "Model/Array0Pool.lean reads the pool calls of an Array0 operation off the abstract step (blocks that appeared / died) and orders "
+        "them as the code does (reallocate: new data block, releases, new counter); block identities are not compared with the real pool "
+        "(the property does not determine them), the class indices found in the block headers are",
+        "blocks above TabSize[511] = 8054880 bytes make GivMMFreeList::allocate throw: the composition theorems assume FitsPool",
         "GMP is modelled, not verified: only the number of outstanding limb blocks is counted (mp_set_memory_functions in the harness, "
-        "Model/Leak.lean in Lean)",
+        "Model/Leak.lean in Lean); the harness's GMP allocator overwrites released limbs with 0xDD so that a read after release is visible",
         "element constructors/destructors of T are modelled as cell creation/removal; Integer's own copy/assignment is C01's subject",
         "the harness reads the private table BlocFreeList::TabFree through an explicit template instantiation and counts the pool's "
         "physical allocations with -Wl,--wrap=malloc (no change to /repo)",
-        "RefCountPtr (givpointer.h) and GivMMRefCount are tied to small executable models by correspondence only (no theorem)",
-        "value-semantics refinement is proved per operation class (Props/C17.lean) and *tested* per step against Spec/Array0Spec.lean; "
-        "the machine-level simulation over whole histories is not a theorem",
+        "GivMMRefCount is tied to an executable model by correspondence only (no theorem)",
+        "cells beyond the logical size (retained storage) are left open by the property: the value-semantics machine of the simulation "
+        "theorem records what the code does with them; the correspondence's SPEC verdict ignores them (MODEL verdict compares them)",
     ]
     t0 = time.time()
     vals, ntab = c17_tables.write_lean()
@@ -101,7 +121,7 @@ def run(prop, tier, seed, replay=None):
         res["results"] += r2["results"]
         res["crashes"] += r2["crashes"]
     t3 = time.time()
-    counts = flow.decide(V, res, known=report.findings_for(prop), key_of=key_of)
+    counts = flow.decide(V, res, known=report.findings_for(prop), key_of=key_of, classify_known=classify_known)
     kinds = {}
     for _, l, _ in res["results"]:
         k = key_of(l)
